@@ -366,9 +366,11 @@ static int replay(const char *path, long start, int lvl, int faults)
 		fault_n = 0;
 		{
 			/* the counting run is not recorded */
+			finish_execution(); /* the previous execution's "end" belongs to the recorded trace, this run's does not */
 			FILE *keep = ev_out, *nul = fopen("/dev/null", "w");
 			ev_out = nul;
 			run_script(copy, lvl, -1);
+			finish_execution();
 			ev_out = keep;
 			fclose(nul);
 		}
